@@ -24,7 +24,9 @@ import (
 // Counting clause: histories × limits × backends, events counted at exact quiescence.
 
 var c16Ops = []string{"add x 300", "add x 1100", "add y 600", "add y 2100", "remove x oldest", "remove x newest", "remove y oldest",
-	"purge x", "purge y", "delete-unknown x", "scan"}
+	"purge x", "purge y", "delete-unknown x", "scan",
+	// one message to two recipients: two copies into one mailbox (x+a@, x+b@), and one each into x and y
+	"add2 x x 300", "add2 x y 600"}
 
 type c16Case struct {
 	Spec sys.StoreSpec `json:"spec"`
@@ -44,6 +46,7 @@ type evRec struct {
 	mu      sync.Mutex
 	stored  []string
 	deleted []string
+	order   []string // "stored:<mailbox>/<id>" / "deleted:<mailbox>/<id>" in order of arrival
 }
 
 func c16Exec(c *fw.Ctx, spec sys.StoreSpec, seq []int, from int) (key string, extend, nontrivial bool) {
@@ -59,11 +62,13 @@ func c16Exec(c *fw.Ctx, spec sys.StoreSpec, seq []int, from int) (key string, ex
 		s.Ext.Events.AfterMessageStored.AddListener("verif", func(m event.MessageMetadata) {
 			rec.mu.Lock()
 			rec.stored = append(rec.stored, m.Mailbox+"/"+m.ID)
+			rec.order = append(rec.order, "stored:"+m.Mailbox+"/"+m.ID)
 			rec.mu.Unlock()
 		})
 		s.Ext.Events.AfterMessageDeleted.AddListener("verif", func(m event.MessageMetadata) {
 			rec.mu.Lock()
 			rec.deleted = append(rec.deleted, m.Mailbox+"/"+m.ID)
+			rec.order = append(rec.order, "deleted:"+m.Mailbox+"/"+m.ID)
 			rec.mu.Unlock()
 		})
 		st := s.StoreH.Store
@@ -74,11 +79,19 @@ func c16Exec(c *fw.Ctx, spec sys.StoreSpec, seq []int, from int) (key string, ex
 		}
 		// overhead of the trace headers (same for the 1-character mailbox names used here)
 		overhead := -1
-		deliver := func(mb string, total int) {
+		deliver := func(total int, mbs ...string) {
 			from, _ := s.Policy.ParseOrigin("s@o.test")
-			rc, err := s.Policy.NewRecipient(mb + "@x.test")
-			if err != nil {
-				panic("VERIF-INFRA recipient: " + err.Error())
+			var rcs []*policy.Recipient
+			for i, mb := range mbs {
+				addr := mb + "@x.test"
+				if len(mbs) > 1 {
+					addr = fmt.Sprintf("%s+%c@x.test", mb, 'a'+i) // same length for every copy
+				}
+				rc, err := s.Policy.NewRecipient(addr)
+				if err != nil {
+					panic("VERIF-INFRA recipient: " + err.Error())
+				}
+				rcs = append(rcs, rc)
 			}
 			if overhead < 0 {
 				// measure once on a throw-away mailbox of the same name length
@@ -94,22 +107,28 @@ func c16Exec(c *fw.Ctx, spec sys.StoreSpec, seq []int, from int) (key string, ex
 				}
 				_ = st.PurgeMessages("p")
 				sys.BubbleWait()
-				rec.stored, rec.deleted = nil, nil
+				rec.stored, rec.deleted, rec.order = nil, nil, nil
 			}
 			time.Sleep(time.Hour) // fake clock: messages are one hour apart
 			src := sizedBody(max(total-overhead, 30))
-			if err := s.Mgr.Deliver(from, []*policy.Recipient{rc}, "Received: from c ([pipe]) by verif.test\r\n", []byte(src)); err != nil {
+			if err := s.Mgr.Deliver(from, rcs, "Received: from c ([pipe]) by verif.test\r\n", []byte(src)); err != nil {
 				fail("deliver-error", "Deliver failed: "+err.Error())
 			}
-			deliveries++
+			deliveries += len(rcs)
 		}
+		excused := map[string]bool{} // messages whose known-finding ordering was reported already
 		for si, oi := range seq {
 			f := strings.Fields(c16Ops[oi])
 			switch f[0] {
 			case "add":
 				var sz int
 				fmt.Sscan(f[2], &sz)
-				deliver(f[1], sz)
+				deliver(sz, f[1])
+				nontrivial = true
+			case "add2":
+				var sz int
+				fmt.Sscan(f[3], &sz)
+				deliver(sz, f[1], f[2])
 				nontrivial = true
 			case "remove":
 				ms, _ := st.GetMessages(f[1])
@@ -146,6 +165,37 @@ func c16Exec(c *fw.Ctx, spec sys.StoreSpec, seq []int, from int) (key string, ex
 				}
 			}
 			sys.BubbleWait()
+			rec.mu.Lock()
+			order := append([]string{}, rec.order...)
+			rec.mu.Unlock()
+			// causal order: no 'deleted' for a message before its 'stored'
+			seenStored := map[string]bool{}
+			for _, ev := range order {
+				if k, ok := strings.CutPrefix(ev, "stored:"); ok {
+					seenStored[k] = true
+				} else if k, ok := strings.CutPrefix(ev, "deleted:"); ok && !seenStored[k] && !excused[k] {
+					detail := fmt.Sprintf("the 'deleted' event for %s arrived before its 'stored' event (or without one); events in order of arrival: %v", k, order)
+					var sz int
+					if f[0] == "add" {
+						fmt.Sscan(f[2], &sz)
+					}
+					if spec.MaxKB > 0 && sz > spec.MaxKB*1024 && len(order) >= 2 && order[len(order)-2] == "deleted:"+k && order[len(order)-1] == "stored:"+k {
+						// the one known way (see known_findings.txt): the message alone exceeds the
+						// store's size limit and is evicted by its own delivery.  Reported under its
+						// own key, and the history is explored further.
+						if si >= from {
+							c.Violate(spec.Backend+"|deleted-before-stored|message-larger-than-the-size-limit-evicted-by-its-own-delivery",
+								fmt.Sprintf("%s\nstore %s, history: %s", detail, spec, strings.Join(cas.Ops, "; ")), cas)
+						}
+						excused[k] = true
+						continue
+					}
+					if si >= from {
+						fail("deleted-before-stored|"+c16Cause(spec, c16Ops[oi]), detail)
+					}
+					break
+				}
+			}
 			if si < from {
 				continue
 			}
